@@ -29,7 +29,11 @@ def http_reply_cls(item, key, world):
     if ac in ('case_swapped', 'lower_cased', 'upper_cased') and accept == good:
         accept = good[:-2] + ('b=' if good[-2] != 'b' else 'c=')      # (digest without letters: fall back to a wrong value)
     hdrs = []
-    up = {"websocket": "websocket", "WebSocket": "WebSocket", "other": "h2c", "missing": None}[item['upgrade']]
+    # (a wrong Upgrade value ends up in the Rejected reason: in the spelled variants it carries characters that mean something to
+    # str.format / %-formatting - a header value is data, never a template)
+    sp_ = item.get('spell', 0)
+    other = "h2c" if not sp_ else ["{websocket}", "{0} %s", "websocket}", "%(x)s {} h2c"][(sp_ - 1) % 4]
+    up = {"websocket": "websocket", "WebSocket": "WebSocket", "other": other, "missing": None}[item['upgrade']]
     if up is not None:
         hdrs.append(['Upgrade', up])
     hdrs.append(['Connection', 'Upgrade'])
